@@ -29,7 +29,7 @@ TInit == Init /\ l = 1 /\ skip = FALSE
    f32 through serde_json, and everything through ron, the recording observer and the compact stream, is
    bit-exact (measured: 0 differences in 3 000 000 / 1 000 000 values) and is required to be. *)
 JsonF64Ulps == 16
-JsonFmts == {"json", "json_seq", "json_hold", "json_arr"}
+JsonFmts == {"json", "json_seq", "json_hold", "json_arr", "json_flat"}    \* json_flat: the colour under #[serde(flatten)] in a user struct
 Lossy(fmt, prim) == fmt \in JsonFmts /\ prim = "f64"
 
 (* Compact (non-self-describing) streams read a struct through a SeqAccess limited to the struct's own
@@ -100,7 +100,7 @@ TRt ==
      IN /\ DeserializeValue(e.ty, e.prim, e.dw, e.opt = 1, Ser(v, "bare", ""))
         /\ Judge(IF CompactOpen(e.fmt, e.dw) THEN "" ELSE FirstFail(<<
              <<"roundtrip", OutMatches(e, res')>>,
-             <<"json-text", (e.fmt = "json" /\ e.sw = e.dw) => JsonTextOK(e, d)>>,
+             <<"json-text", (e.fmt \in {"json", "json_flat"} /\ e.sw = e.dw) => JsonTextOK(e, d)>>,
              <<"json-array-text", e.fmt = "json_arr" => e.depth = 2>> >>))
 
 (* ---- de ---- *)
